@@ -948,8 +948,7 @@ class C03Prop(core.Prop):
             d = v.detail or {}
             return (case.stream == "k4" and "k4:zero-draw" in case.tags and v.impl_spec is False
                     and d.get("k4_excused") == 1)
-        return {"K4": k4, "C02-E2": p_examples.array_truth_finding, "C02-E3": p_examples.victim_ledger_finding,
-                "C09-A1": p_examples.position_alias_finding}
+        return {"K4": k4}
 
     # ---- shrinking ----------------------------------------------------------------------------
     def shrink_candidates(self, d):
